@@ -229,9 +229,14 @@ def run_group(group, pid, tier):
                 raise Undecided(f"kani/{group}: harness does not compile against the current tree "
                                 f"(changed interface?): {' | '.join(errs[:3])[:400]}")
 
+            walls = {}
+
             def one(h):
                 to = hdefs[h].get("timeout_s", cfg.get("harness_timeout_s", 240))
-                return h, _run_harness(base + ["--harness", h, "--output-format", "terse"], repo_d, to)
+                t1 = time.time()
+                r = _run_harness(base + ["--harness", h, "--output-format", "terse"], repo_d, to)
+                walls[h] = round(time.time() - t1, 1)
+                return h, r
 
             import concurrent.futures as cf
             with cf.ThreadPoolExecutor(max_workers=cfg.get("jobs", 6)) as ex:
@@ -246,6 +251,7 @@ def run_group(group, pid, tier):
                         raise Undecided(f"kani/{group}: harness does not compile against the current tree: {' | '.join(errs[:3])[:400]}")
                     else:
                         cache[h] = {"status": "NO-RESULT", "failed": 0, "total": 0, "failed_checks": [], "why": allout[-300:]}
+                    cache[h]["wall_s"] = walls.get(h)
             json.dump(cache, open(cache_p, "w"))
         else:
             res.cmd = "(cached for this tree) cargo kani -p pumpkin-solver --lib --harness <h> --output-format terse"
